@@ -86,7 +86,8 @@ End TopLevel.
     Errors carry their message here so that the difference is expressible;
     [observe] projects to the property's observable (class, token index). *)
 Inductive fexc :=
-| FTypeError (msg : str)                       (* Python TypeError from the callable *)
+| FTypeError (msg : str)                       (* Python TypeError - and, since /repo 8585e2b, ValueError or
+                                                  ArithmeticError - from the callable: converted alike *)
 | FLiquidTypeError (msg : str) (tok : option Z)
 | FOtherLiquid (c : lclass) (tok : option Z)
 | FPy (k : pykind).
